@@ -109,6 +109,6 @@ def run(repo, tier):
     check_monotone(rep, facts, 'R20.2.monotone')
     check_rounds(rep, facts, 'R20.3.rounds')
     check_structure(rep, facts, rel, 'R20.4')
-    rep.floor('criteria rules', 27)
+    rep.floor('criteria rules', 20)
     rep.floor('eligible instructions enumerated', 25000)
     return rep
